@@ -352,6 +352,30 @@ Definition load (P : prims) (st : storage) : load_result :=
     end
   end.
 
+(* ------------------------------------------------------------------ the recovery window of loadBlockInner *)
+(* {Alt,Vbk}BlockTree::loadBlockInner: `window = max(0, height - si); Chain chain(window, current);`
+   recoverEndorsements then requires `chain[endorsed->getHeight()]` to be the endorsed block, i.e. the endorsed
+   block must not lie below the window start. The window start is a parameter (function of the containing height). *)
+Definition window_start (si h : N) : N := h - si.                 (* N subtraction truncates at 0 = max(0, .) *)
+Definition window_start_short (si h : N) : N := h - si + 1.       (* the window shortened by one *)
+
+Definition recover_check (wstart : N -> N) (m : store) (x : N * pers) : bool :=
+  forallb (fun e => match lookup m (snd e) with
+                    | Some eb => wstart (p_height (snd x)) <=? p_height (b_pers eb)
+                    | None => false
+                    end) (p_ce (snd x)).
+
+Fixpoint load_blocks_w (P : prims) (wstart : N -> N) (l : list (N * pers)) (m : store) : option store :=
+  match l with
+  | [] => Some m
+  | x :: r => match load_block P m x with
+              | None => None
+              | Some m1 => if recover_check wstart m1 x
+                           then match recover_block m1 x with None => None | Some m2 => load_blocks_w P wstart r m2 end
+                           else None                       (* bad-endorsements *)
+              end
+  end.
+
 (* ------------------------------------------------------------------ observations for the correspondence run *)
 Definition dirty_ids (s : state) : list N :=
   map fst (filter (fun kb => b_dirty (snd kb)) (blocks s)).
